@@ -191,7 +191,7 @@ def run(ctx):
                 got = 'EXC:' + type(e).__name__
             f += 1
             if got != want:
-                ctx.violation({'kind': 'flatten_dict'}, {'argument': repr(arg), 'separator': sep, 'expected': want, 'observed': repr(got)},
+                ctx.beyond('Misc', {'kind': 'flatten_dict'}, {'argument': repr(arg), 'separator': sep, 'expected': want, 'observed': repr(got)},
                               'flatten_dict_to_keypairs(%r, %r) -> %r, specification %r' % (arg, sep, got, want))
     ctx.cov['evaluations'] += f
     ctx.stage('flatten_dict', cases=f)
